@@ -736,7 +736,7 @@ def run_scenario(ctx, drv, sc, limit, cases, only_crash=None):
                          "tmp_file": dm[0] if dm[0] != "newprefix" else "first %d bytes of new" % dm[1],
                          "load": load_err or ("old" if loaded == expect_old else "new" if loaded == expect_new else "other")}
                  if (j in (0, 7) and k in (1, 2, 6)) else None)
-        ctx.count("crash-after:%s" % (ops[k - 1][0] if k else "nothing"))
+        ctx.count("crash-after:%s" % (ops[k - 1][0] if 0 < k <= len(ops) else "nothing" if k == 0 else "end"))
         bad = judge(loaded, load_err, expect_old, expect_new, ops, tgt, new_bytes, stale)
         if bad:
             ctx.violation(bad[0], bad[1], {
